@@ -16,6 +16,11 @@ Definition P (l c : N) : pos := mkPos l c 0 false.
 Definition P0 : pos := pos0.
 Definition WS (c : str) (p : pos) : wop := WF c p (Some c).
 
+Inductive name_item :=
+| NKeyword (locals : list str)                            (* schema file *)
+| NCapture (locals : list str) (scalar_texts : list str)  (* schema file + the TS texts of the scalars in use *)
+| NReserved (aliases : list str) (o : ropts).             (* resolvers file *)
+
 Inductive case :=
 | CDoc (checked : bool)                                   (* check_type_system_document found no error *)
        (doc : tsdoc)
@@ -24,9 +29,7 @@ Inductive case :=
 | CJsdoc (items : list (str * list wop))                  (* jsdoc::print_description on each string *)
 (* names the implementation DECLARES, read off its recorded operations by the harness (the [write_for]
    that follows a [write_for "export type "/"type "], resp. a [write "…type "] in the resolvers file) *)
-| CKeyword (locals : list str)                            (* schema file *)
-| CCapture (locals : list str) (scalar_texts : list str)  (* schema file + the TS texts of the scalars in use *)
-| CReserved (aliases : list str) (o : ropts).             (* resolvers file *)
+| CNames (items : list name_item).
 
 Definition agree (c : case) : bool :=
   match c with
@@ -87,6 +90,13 @@ Definition run_ok (o : sopts) (doc : tsdoc) (out : res (list wop)) : bool :=
   | Panic _ => negb (wf_schema o doc)                (* no panic on a well-formed schema *)
   end.
 
+Definition name_item_ok (i : name_item) : bool :=
+  match i with
+  | NKeyword locals => forallb (fun l => negb (mem l EMITTED_KEYWORDS)) locals
+  | NCapture locals texts => let bag := flat_map idents_of texts in forallb (fun l => negb (mem l bag)) locals
+  | NReserved aliases o => forallb (fun a => negb (mem a (resolver_reserved o))) aliases
+  end.
+
 Definition holds (c : case) : bool :=
   match c with
   | CDoc checked doc sruns rruns =>
@@ -94,9 +104,7 @@ Definition holds (c : case) : bool :=
       || (forallb (fun r => run_ok (fst r) doc (snd r)) sruns
           && forallb (fun r => match snd r with Ok ops => comments_ok false (raw_text ops) | _ => true end) rruns)
   | CJsdoc items => forallb (fun i => option_eqb str_eqb (scan_block_comment (raw_text (snd i))) (Some [10%N])) items
-  | CKeyword locals => forallb (fun l => negb (mem l EMITTED_KEYWORDS)) locals
-  | CCapture locals texts => let bag := flat_map idents_of texts in forallb (fun l => negb (mem l bag)) locals
-  | CReserved aliases o => forallb (fun a => negb (mem a (resolver_reserved o))) aliases
+  | CNames items => forallb name_item_ok items
   end.
 
 (** diagnosis aid (not used by the check): first differing operation of each run *)
